@@ -18,7 +18,9 @@
 //   equiv     scenario that is order-independent by construction (callbacks act on themselves or on events they
 //             own whose descriptor is not ready in that pass; no except mask) run on epoll and on select in the
 //             same process; the per-pass multisets of (event, reported mask & subscription) must be equal.
-//   directed  hand-written minimal histories (x both back-ends), see directed_case().
+//   directed  hand-written minimal histories (x both back-ends), see directed_case(); cases 28.. are differential
+//             (both back-ends in one case): descriptor closed while its event is enabled, event disabled, the
+//             descriptor NUMBER re-opened as a new pipe, the same / a sibling / a new event enabled on it again.
 // In the safety and equiv legs one scenario in five is "wide": 8-40 channels, most descriptors idle and without
 // any event, the number of registered descriptors (= records in the loop's descriptor map) started just below
 // 13 / 29, and callbacks that mostly create+enable events on descriptors the loop has no record for yet, so that
@@ -77,10 +79,13 @@ struct Desc {
     bool served = false;     //!< some event on it had a callback in this pass
     int nev = 0;             //!< alive events on it (== reference count of the shared record)
     int nev_snap = 0;        //!< nev when the pass started (order-independent criterion for the equiv leg)
+    bool reuse_pending = false;   //!< closed while an event on it was enabled (then disabled); the number will be re-opened
+    bool record_survives = false; //!< ... and the loop's record of that number has been alive ever since
+    bool reincarnated = false;    //!< the number was re-opened as a new channel end while the old record was alive
 };
 
 struct Chan { bool sock = false; int d[2] = {-1, -1}; };   //!< pipe: d[0] read end, d[1] write end
-struct Dir { int from, to; };                               //!< bytes written on `from` are read on `to`
+struct Dir { int from, to; bool dead; };                               //!< bytes written on `from` are read on `to`
 
 struct Ev {
     uint64_t id = 0;
@@ -89,6 +94,7 @@ struct Ev {
     int mask = 0;
     bool oneshot = false;
     bool enabled = false;
+    bool enabled_snap = false;   //!< enabled when the pass started
     bool pending_delete = false;
     bool in_cb = false;
     int ncb = 0;
@@ -197,6 +203,7 @@ struct World {
 
     //! level: 1 empty, 2 one byte, 3 full
     void set_level(const Dir &dr, int level) {
+        if (dr.dead) return;
         Desc &from = descs[dr.from], &to = descs[dr.to];
         if (level == 1) { if (to.open) drain_fd(to.fd); }
         else if (level == 2) { if (to.open) drain_fd(to.fd); if (from.open) write_byte(dr.from); }
@@ -244,7 +251,14 @@ struct World {
         }
         // descriptors on which some enabled event should fire
         std::vector<int> hot(descs.size(), 0);
-        for (auto &kv : evs) { Ev &e = *kv.second; if (e.enabled && (descs[e.desc].snap & e.mask)) hot[e.desc]++; }
+        for (auto &kv : evs) {
+            Ev &e = *kv.second;
+            e.enabled_snap = e.enabled;
+            if (e.enabled && (descs[e.desc].snap & e.mask)) {
+                hot[e.desc]++;
+                if (descs[e.desc].reincarnated && descs[e.desc].record_survives) vh::counter("event_due_on_reused_fd_number_with_surviving_record");
+            }
+        }
         int shared_hot = 0;
         for (size_t i = 0; i < hot.size(); ++i) { if (hot[i]) ++ready_with_enabled; if (hot[i] >= 2) ++shared_hot; }
         if (ready_with_enabled >= 2) { vh::counter("pass_two_or_more_fds_due"); saw_multi_ready = true; }
@@ -291,11 +305,14 @@ struct World {
         log(vh::fmt("%snew %s%s", in_pass ? " " : "", evname(*e).c_str(), en ? "+en" : ""));
         sig.add(0x100 + di * 8 + mask); sig.add(oneshot);
         vh::counter(in_pass ? "create_in_callback" : "create_outside_callback");
+        if (en && d.reincarnated && d.record_survives && d.nev >= 2) vh::counter("new_event_enabled_on_reused_fd_number_with_surviving_record");
         if (en) do_enable(*e);
         return e;
     }
 
     void do_enable(Ev &e) {
+        if (!e.enabled && descs[e.desc].reincarnated && descs[e.desc].record_survives)
+            vh::counter("fd_closed_while_enabled_then_number_reused_and_reenabled");
         bool ok = e.p->enable();
         VH_CHECK(ok, k("api/enable-returned-false"), "enable() of %s returned false", evname(e).c_str());
         e.enabled = true;
@@ -314,6 +331,7 @@ struct World {
         --d.nev;
         if (d.nev == 0) {
             --nrecords;
+            d.record_survives = false;
             vh::counter("record_released");
             if (in_pass) {
                 record_freed_this_pass = true;
@@ -351,6 +369,95 @@ struct World {
         int n = 0;
         for (auto &kv : evs) if (kv.second->desc == di) { if (kv.second->enabled) do_disable(*kv.second); ++n; }
         return n;
+    }
+
+    //! close() the running event's descriptor (and the other end of its channel) while the event is still enabled, THEN
+    //! disable every event of that number. The kernel has dropped the epoll registration by itself; the records and
+    //! the event objects stay. The number is re-opened between passes (reopen_number()).
+    bool close_own_while_enabled(Ev &self) {
+        Desc &sd = descs[self.desc];
+        if (!sd.open || !self.enabled || sd.reuse_pending) return false;
+        int pi = peer_of(self.desc);
+        Desc &pd = descs[pi];
+        if (opt.equiv) {
+            // order-independent by construction: nobody else is (or can become) active on this descriptor in this pass,
+            // and the other end never carries events
+            if (pd.open && pd.watchable) return false;
+            for (auto &kv : evs) if (kv.second != &self && kv.second->desc == self.desc && kv.second->enabled_snap) return false;
+        } else {
+            if (opt.cls != 3) return false;
+            if (pd.open && pd.nev != 0) return false;
+        }
+        log(" close-own-while-enabled,dis-all"); sig.add(9);
+        bool sibling_enabled = false;
+        for (auto &kv : evs) if (kv.second != &self && kv.second->desc == self.desc && kv.second->enabled) sibling_enabled = true;
+        close_desc(self.desc);
+        if (pd.open) close_desc(pi);
+        disable_all_on(self.desc);
+        sd.reuse_pending = true;
+        sd.record_survives = true;
+        sd.reincarnated = false;
+        vh::counter("act_close_own_fd_while_enabled_then_disable");
+        if (sibling_enabled) vh::counter("act_close_own_fd_while_sibling_enabled_too");
+        return true;
+    }
+
+    //! a new pipe / socket pair whose watched end gets descriptor number descs[di].fd again
+    bool reopen_number(int di, bool other_watchable) {
+        Desc &d = descs[di];
+        int r = d.fd;
+        if (d.open || fcntl(r, F_GETFD) != -1) { d.reuse_pending = false; vh::counter("reopen_skipped_number_in_use"); return false; }
+        int f[2];
+        if ((d.sock ? socketpair(AF_UNIX, SOCK_STREAM, 0, f) : pipe(f)) != 0) { fprintf(stderr, "VH-FATAL: reopen-failed errno=%d\n", errno); abort(); }
+        // park both ends on high numbers first so that neither sits on a number that is waiting to be re-used
+        int park = r >= 300 ? r + 1 : 300;
+        int hi0 = fcntl(f[0], F_DUPFD_CLOEXEC, park), hi1 = fcntl(f[1], F_DUPFD_CLOEXEC, park);
+        ::close(f[0]); ::close(f[1]);
+        if (hi0 < 0 || hi1 < 0) { fprintf(stderr, "VH-FATAL: dupfd-failed errno=%d\n", errno); abort(); }
+        int mine = (d.sock || d.side == 0) ? hi0 : hi1, other = (mine == hi0) ? hi1 : hi0;
+        if (dup2(mine, r) != r) { fprintf(stderr, "VH-FATAL: dup2-failed errno=%d\n", errno); abort(); }
+        ::close(mine);
+        if (d.sock) { int sz = 2048; setsockopt(r, SOL_SOCKET, SO_SNDBUF, &sz, sizeof sz); setsockopt(other, SOL_SOCKET, SO_SNDBUF, &sz, sizeof sz); }
+        else fcntl(d.side == 0 ? other : r, F_SETPIPE_SZ, 8192);
+        set_nonblock(r);
+        for (auto &dr : dirs) if (dr.from == di || dr.to == di) dr.dead = true;
+        Chan c; c.sock = d.sock;
+        int ci = (int)chans.size();
+        int side = d.sock ? 0 : d.side;
+        bool sock = d.sock;
+        int oi = add_desc(other, ci, 1 - side, sock);       // may reallocate descs: d is stale from here on
+        Desc &dd = descs[di];
+        descs[oi].watchable = other_watchable;
+        c.d[side] = di; c.d[1 - side] = oi;
+        chans.push_back(c);
+        dd.open = true; dd.chan = ci; dd.side = side; dd.reuse_pending = false; dd.reincarnated = true;
+        if (sock) { Dir a = {di, oi, false}, b = {oi, di, false}; dirs.push_back(a); dirs.push_back(b); }
+        else if (side == 0) { Dir a = {oi, di, false}; dirs.push_back(a); }
+        else { Dir a = {di, oi, false}; dirs.push_back(a); }
+        log(vh::fmt("reopen d%d(fd %d, record %s)", di, r, dd.record_survives ? "alive" : "gone"));
+        sig.add(0x90 + (dd.record_survives ? 1 : 0));
+        vh::counter("fd_number_reopened_after_close_while_enabled");
+        if (dd.record_survives) vh::counter("fd_number_reopened_with_surviving_record");
+        return true;
+    }
+
+    //! between passes: give closed-while-enabled numbers back to the kernel's lowest-free-number rule, enable what was left on them
+    void reuse_numbers() {
+        for (size_t i = 0; i < descs.size(); ++i) {
+            if (!descs[i].reuse_pending || descs[i].open) continue;
+            if (!rs.chance(2, 3)) continue;                 // otherwise the loop's wake-up descriptor of the next pass may take the number
+            if (!reopen_number((int)i, !opt.equiv || rs.chance(1, 2))) continue;
+            int di = (int)i;
+            std::vector<Ev *> left;
+            for (auto &kv : evs) if (kv.second->desc == di) left.push_back(kv.second);
+            for (Ev *e : left) if (rs.chance(3, 4)) { log("en " + evname(*e)); sig.add(0x74); do_enable(*e); }
+            if (!left.empty() && rs.chance(1, 3)) {
+                uint64_t owner = rs.chance(1, 2) ? left[0]->id : 0;
+                create(next_struct_id++, di, pick_mask(di, rs, false), rs.chance(1, 4), true, owner);
+            }
+            // make it ready for the usual subscription of that end
+            for (auto &dr : dirs) if (!dr.dead && dr.to == di && rs.chance(3, 4)) set_level(dr, 2);
+        }
     }
 
     // ---------------------------------------------------------------- the monitor
@@ -418,6 +525,7 @@ struct World {
         for (auto &kv : evs) if (kv.second->desc == e.desc && kv.second->enabled) ++hot;
         if (hot + (e.oneshot ? 1 : 0) >= 2) vh::counter("cb_on_shared_fd");
         if (d.snap_raw & POLLHUP) vh::counter("cb_on_hup_fd");
+        if (d.reincarnated && d.record_survives) vh::counter("cb_on_reused_fd_number_with_surviving_record");
         if (events & kX) vh::counter("cb_reports_except");
         if ((size_t)pass < cb_log.size()) cb_log[pass].push_back(std::make_pair(id, events & e.mask & (kR | kW)));
         if (!d.served) ++served_fds;
@@ -428,6 +536,7 @@ struct World {
         if (script) script(*this, e, events);
         else if (opt.equiv) equiv_actions(e, r);
         else random_actions(e, r);
+        if (!script && r.chance(1, 8)) close_own_while_enabled(e);
         e.in_cb = false;
     }
 
@@ -763,6 +872,7 @@ struct World {
     }
 
     void between_passes() {
+        reuse_numbers();
         int n = (int)rs.below(4);
         for (int i = 0; i < n; ++i) {
             unsigned roll = (unsigned)rs.below(10);
@@ -893,6 +1003,8 @@ void safety_case(uint64_t idx, vh::Rng &) {
     if (nt && vh::want_sample(2)) vh::sample(json_case("safety", vh::st().case_desc), 2);
 }
 
+void compare_backends(World &a, World &b);
+
 void equiv_case(uint64_t idx, vh::Rng &) {
     Options o; o.equiv = true; o.cls = 3;
     o.wide = idx % 5 == 0;
@@ -906,6 +1018,12 @@ void equiv_case(uint64_t idx, vh::Rng &) {
     bool nt = a.saw_multi_ready && a.saw_cross_mutation && a.callbacks > 0;
     vh::note_case(a.sig.h, nt);
     if (a.abandon || b.abandon) return;
+    compare_backends(a, b);
+    vh::counter("equiv_scenarios_compared");
+    if (nt && vh::want_sample(2)) vh::sample(json_case("equiv", vh::st().case_desc), 2);
+}
+
+void compare_backends(World &a, World &b) {
     size_t np = std::min(a.cb_log.size(), b.cb_log.size());
     if (a.cb_log.size() != b.cb_log.size()) {
         vh::viol("equiv/pass-count-differs", vh::fmt("epoll ran %zu passes, select %zu", a.cb_log.size(), b.cb_log.size()));
@@ -926,8 +1044,52 @@ void equiv_case(uint64_t idx, vh::Rng &) {
         vh::viol("equiv/callbacks-differ", d);
         break;   // later passes start from different states
     }
-    vh::counter("equiv_scenarios_compared");
-    if (nt && vh::want_sample(2)) vh::sample(json_case("equiv", vh::st().case_desc), 2);
+}
+
+// ---- differential directed histories: descriptor closed while its event is enabled, event disabled afterwards, the
+// descriptor number re-opened as a new pipe, then (variant 0) the same event, (1) a disabled sibling that kept the
+// record alive, (2) a new event on the same number is enabled and the pipe made readable. Single ready descriptor:
+// nothing depends on a service order.
+void run_reuse_history(World &w, int variant) {
+    w.start();
+    w.log(vh::fmt("[%s reuse-number %d]", w.be.c_str(), variant));
+    int c = w.add_pipe();
+    int rd = w.chans[c].d[0];
+    w.descs[w.chans[c].d[1]].watchable = false;
+    w.create(1, rd, kR, false, true, 0);
+    if (variant == 1) w.create(2, rd, kR, false, false, 0);
+    w.set_level(w.dirs[0], 2);
+    w.script = [](World &W, Ev &self, int) {
+        W.drain_fd(W.descs[self.desc].fd);
+        if (W.pass == 0 && self.id == 1) { if (W.close_own_while_enabled(self)) vh::counter("directed_close_while_enabled"); }
+    };
+    if (!w.run_pass()) { w.teardown(); return; }                     // pass 0: A called, closes, disables
+    if (w.descs[rd].reuse_pending && w.reopen_number(rd, false)) {
+        Ev *a = w.find(1), *b = w.find(2);
+        if (variant == 0 && a) { w.log("en " + w.evname(*a)); w.do_enable(*a); }
+        if (variant == 1 && b) { w.log("en " + w.evname(*b)); w.do_enable(*b); }
+        if (variant == 2) w.create(3, rd, kR, false, true, 0);
+        for (auto &dr : w.dirs) if (!dr.dead && dr.to == rd) w.set_level(dr, 2);
+    }
+    if (!w.run_pass()) { w.teardown(); return; }                     // pass 1: the re-enabled event must be called on both back-ends
+    for (auto &dr : w.dirs) if (!dr.dead && dr.to == rd) w.set_level(dr, 2);
+    w.run_pass();
+    w.teardown();
+}
+
+void reuse_directed_case(int variant) {
+    Options o; o.equiv = true; o.cls = 3;
+    World a("epoll", 2000 + variant, o);
+    run_reuse_history(a, variant);
+    World b("select", 2000 + variant, o);
+    b.quiet = true;
+    run_reuse_history(b, variant);
+    bool ab = a.abandon || b.abandon;
+    if (!ab) compare_backends(a, b);
+    vh::counter("directed_cases");
+    vh::counter("directed_reuse_number_pairs");
+    a.sig.add(0x7000 + variant);
+    vh::note_case(a.sig.h, true);
 }
 
 // ---- directed histories. Every callback script is symmetric (acts on "the other" event), so it does not matter
@@ -935,6 +1097,7 @@ void equiv_case(uint64_t idx, vh::Rng &) {
 const int kDirected = 14;
 
 void directed_case(uint64_t idx, vh::Rng &) {
+    if (idx >= 2 * (uint64_t)kDirected) { reuse_directed_case((int)((idx - 2 * kDirected) % 3)); return; }
     int scen = (int)((idx / 2) % kDirected);
     const char *be = (idx & 1) ? "select" : "epoll";
     Options o; o.equiv = false; o.cls = 3;
